@@ -24,7 +24,8 @@ ASSUMPTIONS = [
     "bodies evaluated lazily by the implementation are kept free of effects (model skips otherwise), so evaluation order is unobservable",
     "if-statement context binding: documents disagree; either reading accepted per program, mixed readings in one run reported",
 ]
-MIN_COUNTERS = {"compared": {"quick": 300, "thorough": 5000}, "exec_probe_hits": {"quick": 300, "thorough": 5000}}
+MIN_COUNTERS = {"compared": {"quick": 3000, "thorough": 30000}, "exec_probe_hits": {"quick": 3000, "thorough": 30000},
+                "trace_boundaries_observed": {"quick": 10000, "thorough": 100000}}
 UNIT_TIMEOUT = 1200
 FLAGSETS = ["", "", "", "O", "o", "j", "s", "W", "H", "M", "m"]
 
@@ -69,10 +70,43 @@ def model_run(prog, inputs, flags, binds, quirk=False):
         return None, s.reason
     except RecursionError:
         return None, "model-recursion"
-    return {"stack": m.final_stack, "out": "".join(m.out), "reads": m.reads}, None
+    return {"stack": m.final_stack, "out": "".join(m.out), "reads": m.reads, "trace": m.top_trace}, None
 
 
-def compare(expect, got):
+def shape_of_model_stack(st):
+    out = ""
+    for v in st:
+        if isinstance(v, list):
+            out += "L"
+        elif isinstance(v, dict):
+            out += "f"
+        else:
+            out += "n"
+    return out
+
+
+def trace_mismatch(expect, got, flags):
+    """M-LINE trace oracle: the stack shapes the model predicts after each top-level
+    statement must occur, in order, among the shapes observed at the implementation's
+    top-level statement boundaries (which are a refinement). Returns None if so."""
+    shapes = got.get("shapes")
+    if not shapes:
+        return None
+    want = ["n" if "H" in flags else ""] + [shape_of_model_stack(t) for t in expect["trace"][:-1]]
+    dedup = []
+    for w in want:
+        if not dedup or dedup[-1] != w:
+            dedup.append(w)
+    i = 0
+    for sh in shapes:
+        if i < len(dedup) and sh == dedup[i]:
+            i += 1
+    if i < len(dedup):
+        return f"stack shape {dedup[i]!r} predicted after top-level statement #{i} never observed in order; observed {shapes[:12]!r}"
+    return None
+
+
+def compare(expect, got, flags=None):
     """Returns None when equal, else a short description."""
     if got["error"]:
         return f"implementation raised {got['error']}"
@@ -80,6 +114,10 @@ def compare(expect, got):
         return f"final stack {got['final_stack']!r} != model {expect['stack']!r}"
     if got["stdout"] != expect["out"]:
         return f"stdout {got['stdout']!r} != model {expect['out']!r}"
+    if flags is not None:
+        t = trace_mismatch(expect, got, flags)
+        if t:
+            return "trace: " + t
     return None
 
 
@@ -100,7 +138,7 @@ def check_case(prog, inputs, flags, res):
         return
     e1, why1 = model_run(prog, inputs, flags, True)
     ambiguous = e1 is None or e1 != e0
-    got = structrun.run_impl(text, [repr(x) for x in inputs], flags)
+    got = structrun.run_impl(text, [repr(x) for x in inputs], flags, line_monitor=True)
     feats = features(prog, set())
     modtail = "brk-after-modifier" in feats or "rec-after-modifier" in feats
     if got["error"] == "watchdog" and modtail:
@@ -134,13 +172,15 @@ def check_case(prog, inputs, flags, res):
     c["compared"] = c.get("compared", 0) + 1
     if G.has_structure(prog):
         res["keys"].append(harness.short_hash([text, inputs, flags]))
-    d0 = compare(e0, got)
+    d0 = compare(e0, got, flags)
+    if got.get("shapes"):
+        c["trace_boundaries_observed"] = c.get("trace_boundaries_observed", 0) + len(got["shapes"])
     verdict = None
     if d0 is None:
         if ambiguous:
             c["n_in_if:matches_unbound_reading"] = c.get("n_in_if:matches_unbound_reading", 0) + 1
     else:
-        if ambiguous and e1 is not None and compare(e1, got) is None:
+        if ambiguous and e1 is not None and compare(e1, got, flags) is None:
             c["n_in_if:matches_bound_reading"] = c.get("n_in_if:matches_bound_reading", 0) + 1
         else:
             verdict = d0
